@@ -91,6 +91,9 @@ def run(repo, rep, tier):
         "i.e. not control-dependent on the once-only flag that the same traversal sets. Decides these structural "
         "clauses, not the run-time detection on concrete trees."
     )
+    rep.extra["explanation"] += " " + (
+        "Later additions: the template slot is part of `children` (R16.2); the walk's memo is not shared across calls (R16.3)."
+    )
     rep.not_decided += ["trees mutated by the user after the first fill"]
     prims, _ = primitives(repo)
     r1 = rep.rule("R16.1", "the cross-reference walk dominates every mutation / child fill / user call in fill and fillnumpy", floor=20)
